@@ -72,7 +72,9 @@ Inductive sop :=                       (* one critical section without user code
 | FindName (n : Z) (s : bool) | CheckType (n ty : Z) | GetObjects | Empty.
 Inductive pop :=                       (* one critical section calling the predicate "value == k" *)
 | RemPred (k : Z) | FindPred (k : Z) (s : bool) | FindPredT (k ty : Z) (s : bool).
-Inductive lop := Drop (s : bool) | ReadObj (s : bool).   (* client-side use of a returned shared_ptr *)
+(* client-side use of a returned shared_ptr; AddFrom n s ty: addObject(n, slot s[, ty]) - the client adds an
+   object it already holds (possibly one the map already stores); with an empty slot it does nothing *)
+Inductive lop := Drop (s : bool) | ReadObj (s : bool) | AddFrom (n : Z) (s : bool) (ty : option Z).
 Inductive op := OS (o : sop) | OP (o : pop) | OL (o : lop).
 
 Definition opcode (o : op) : Z :=
@@ -81,6 +83,7 @@ Definition opcode (o : op) : Z :=
   | OP (RemPred _) => 4 | OS (Copy _ _) => 5 | OS (FindName _ _) => 6 | OP (FindPred _ _) => 7
   | OP (FindPredT _ _ _) => 8 | OS (CheckType _ _) => 9 | OS GetObjects => 10 | OS Empty => 11
   | OL (Drop _) => 12 | OL (ReadObj _) => 13
+  | OL (AddFrom _ _ None) => 14 | OL (AddFrom _ _ (Some _)) => 15
   end.
 (* every client thread has two slots for returned pointers; the driver uses (s & 1) *)
 Definition sl (z : Z) : bool := Z.odd z.
@@ -100,6 +103,8 @@ Definition decode_op (z : list Z) : option op :=
   | [11] => Some (OS Empty)
   | [12; s] => Some (OL (Drop (sl s)))
   | [13; s] => Some (OL (ReadObj (sl s)))
+  | [14; n; s] => Some (OL (AddFrom n (sl s) None))
+  | [15; n; s; ty] => Some (OL (AddFrom n (sl s) (Some ty)))
   | _ => None
   end.
 
@@ -355,6 +360,15 @@ Definition tstep_gen (unfixed : bool) (t c : nat) (g : glob) (l : loc) : option 
           let ok := alive (heap g) p in
           Some (set_hf g (heap g) ok, Loc rest Idle (slots l) (held l),
                 [iv] ++ fault_evs F_UAF ok ++ [E K_RET 0 (pval p)])
+        end
+      | OL (AddFrom n s ty) =>
+        match slot l s with
+        | None => Some (g, Loc rest Idle (slots l) (held l), [iv; E K_RET 0 (-1)])
+        | Some p =>     (* the argument is a copy of the client's pointer; then exactly addObject *)
+          let '(h', ok) := rc_inc (heap g) (pid p) in
+          Some (set_hf g h' ok,
+                Loc rest (SLock (match ty with Some y => AddT n (pval p) y | None => Add n (pval p) end)) (slots l) (Some p),
+                [iv] ++ fault_evs F_UAF ok)
         end
       | OS so =>
         match new_arg so with
